@@ -385,9 +385,62 @@ def scripted_priority(g):
         g.tags.add("priority:high-" + ballot)
 
 
+def scripted_closed_proposal_after_first_pause(g):
+    """seeding round 25 (`C15-status-index-merge-relists-closed-proposals`): a proposal P1 is open while ANOTHER object sees the
+    first pause of the history (a freeze paused by a logout of the same chain); P1 is then approved by three administrators; after
+    that the fourth administrator — an elector of P1 who never voted — is frozen by an approved proposal, which makes the role
+    manager walk over the proposals it still believes open.  P1, its tallies, its end reason and its object are read before and
+    after: a concluded proposal never changes again and manages its object once."""
+    r = g.r
+    c1, c2 = r.choice([("c4", "c2"), ("c2", "c4"), ("c1", "c2")])
+    # the super administrator (adm0) cannot be frozen and a special proposal needs its ballot: it votes, one of the others is frozen
+    x = r.choice(["adm1", "adm2", "adm3"])
+    voters = [a for a in ADMINS if a != x]
+    r.shuffle(voters)
+    g.submit(voters[0], f"appchain FreezeAppchain s:{c1} s:reason", "appchain-freeze", "appchain", c1)
+    p1 = g.props[-1][0]
+    g.submit(voters[1], f"appchain FreezeAppchain s:{c2} s:reason", "appchain-freeze", "appchain", c2)
+    lo = g.props[-1][0]
+    g.submit(f"ca{c2[1]}", f"appchain LogoutAppchain s:{c2} s:reason", "appchain-logout", "appchain", c2)
+    hi = g.props[-1][0]
+
+    def look():
+        for ref in (p1, lo, hi):
+            g.ops.append(f"q prop {ref}")
+        g.ops.append(f"q obj appchain {c1}")
+        g.ops.append(f"q obj appchain {c2}")
+    look()
+    for v in voters:
+        g.ops.append(f"q prop {p1}")
+        g.ops.append(f"q obj role @{v}")
+        g.ops.append(f"block bvm {v} gov Vote s:{p1} s:approve s:r")
+        look()
+    # the chain P1 froze is asked to be activated again and that proposal stays open: the object is now in a status from which a
+    # second (stale) "approve" of P1 would be a legal life-cycle step — it must not happen
+    g.submit(voters[1], f"appchain ActivateAppchain s:{c1} s:reason", "appchain-activate", "appchain", c1)
+    act = g.props[-1][0]
+    g.submit(voters[0], f"role FreezeRole s:@{x} s:reason", "role-freeze", "role", "@" + x)
+    fz = g.props[-1][0]
+    for v in voters:
+        g.ops.append(f"q prop {act}")
+        g.ops.append(f"q prop {fz}")
+        g.ops.append(f"q obj role @{v}")
+        g.ops.append(f"block bvm {v} gov Vote s:{fz} s:approve s:r")
+        g.ops.append(f"q prop {fz}")
+        g.ops.append(f"q prop {act}")
+        g.ops.append(f"q obj role @{x}")
+        look()
+    g.tags.add("closed-proposal-after-first-pause")
+
+
 def gen_c15(rng, n, tier):
     import random as _r
     hs = []
+    # forced, not drawn: one history per run with the scenario alone
+    g0 = GovGen(_r.Random(rng.getrandbits(64)))
+    g0.ops.append("world audit=0 price=1")
+    scripted_closed_proposal_after_first_pause(g0)
+    hs.append(History(g0.ops, tags=g0.tags))
     for _ in range(n):
         r = _r.Random(rng.getrandbits(64))
         g = GovGen(r)
@@ -405,6 +458,8 @@ def gen_c15(rng, n, tier):
             scripted_special_won_then_electorate_change(g)
         elif k0 < 0.74:
             scripted_withdraw_concluded(g)
+        elif k0 < 0.80:
+            scripted_closed_proposal_after_first_pause(g)
         g.propose()
         for _ in range(r.randint(6, 22)):
             k = r.random()
